@@ -10,7 +10,8 @@ PROPS = ['Props/C14.lean']
 def keyfn(case, res, m):
     # finding key = monitor rule (+ the operation for wrong results; + the type for unusable proxy types)
     ev = res.get('events') or [['-', '-']]
-    if m['rule'] in ('traceback', 'hang', 'call-failed', 'lost-update', 'dead-proxy'):
+    if m['rule'] in ('traceback', 'hang', 'call-failed', 'lost-update', 'dead-proxy', 'concurrent-managed', 'method-missing',
+                     'inplace-rebinds'):
         return m['rule']
     if m['rule'] == 'unusable-proxy-type':
         return f"{m['rule']}:{ev[-1][1]}"
@@ -39,7 +40,11 @@ def run(chk):
         'picklable arguments (ints, None, bools, str, big int, tuples, nested lists/dicts, bytes, float, frozenset, '
         'proxies), boundary indices (-7..5 on short lists), missing keys/attributes, methods that mutate and raise '
         '(4 exception classes), managed() views of the same value handed out several times and dropped one by one '
-        '(every remaining view is called right after each drop), proxies used inside the server incl. a hosted '
+        '(every remaining view is called right after each drop), a Hub handing out managed() proxies (no typeid) of two '
+        'classes that share their name/typeid but not their methods, both proxied in one process in either order, '
+        'in-place operators (`x *= k`, `x += vs` with x bound to a list proxy: x must stay the proxy), storms of '
+        'concurrent calls returning managed(<ad-hoc class instance>) from 2-3 threads in 1-3 processes next to a thread '
+        'creating objects with a slow constructor (every call must give a live proxy behaving like the object; 15 s hang bound), proxies used inside the server incl. a hosted '
         'method calling another hosted method that raises, and append batches issued '
         'concurrently from up to 3 threads in each of up to 3 processes; every outcome is compared with the same '
         'operation on local Python objects (monitor; for exceptions also the [function, line] frames of the hosted '
